@@ -4,13 +4,15 @@ import Driver.C16Mon
 import Driver.C18
 import Driver.C18Mon
 import Driver.C19
+import Driver.C19Mon
 
 def suites : List (String × Driver.Suite) :=
   Driver.C16.suites ++
   Driver.C16Mon.suites ++
   Driver.C18.suites ++
   Driver.C18Mon.suites ++
-  Driver.C19.suites
+  Driver.C19.suites ++
+  Driver.C19Mon.suites
 
 def main (args : List String) : IO UInt32 := do
   match args with
